@@ -26,6 +26,18 @@ pub struct Scn {
     pub faults: Vec<String>,
 }
 
+/// Degenerate but legal files: empty, blank, comment-only, docstring-only, one very long line, no final newline.
+const DEGENERATE: [&str; 8] = [
+    "",
+    "\n",
+    "   \n\n",
+    "  ",
+    "# only a comment\n",
+    "\"\"\"Only a module docstring.\"\"\"\n",
+    "def long_one(aaaaaaaaaaaaaaaaaaaa: int, bbbbbbbbbbbbbbbbbbbbbbbb: int, cccccccccccccccccccccccc: int, dddddddddddddddddddddddd: int, eeeeeeeeeeeeeeeeeeee: int) -> int:\n    return aaaaaaaaaaaaaaaaaaaa + bbbbbbbbbbbbbbbbbbbbbbbb + cccccccccccccccccccccccc + dddddddddddddddddddddddd + eeeeeeeeeeeeeeeeeeee\n",
+    "def no_final_newline() -> int:\n    return 1",
+];
+
 const WELL_FORMED: [&str; 4] = [
     "def add(a: int, b: int) -> int:\n    return a + b\n",
     "model Point:\n    x: int\n    y: int\n\n\ndef origin() -> Point:\n    return Point(x=0, y=0)\n",
@@ -47,7 +59,8 @@ pub fn gen_scn(seed: u64, corpus: &[world::CorpusProgram]) -> Scn {
                 let c = r.pick(corpus);
                 c.files.iter().find(|f| f.0 == c.entry).map(|f| f.1.clone()).unwrap_or_default()
             }
-            5..=7 => {
+            5 => r.pick(&DEGENERATE).to_string(),
+            6..=7 => {
                 let p = crate::c12::gen_program(r.next());
                 p.files.iter().find(|f| f.0 == p.entry).map(|f| f.1.clone()).unwrap_or_default()
             }
@@ -432,12 +445,15 @@ pub fn run_case(scn: &Scn, scratch: &Path, fakebin: &Path, hash_seed: u64) -> Ca
     };
     // files reported as rewritten by the latest `fmt`, awaiting their "--check must pass" obligation
     let mut rewritten: BTreeSet<String> = BTreeSet::new();
+    // `fmt` just ran over the tree without touching it since: files it did not complain about are, by its own account, formatted
+    let mut fmt_just_ran: Option<BTreeSet<String>> = None;
     let mut last_fmt_clean: Option<BTreeMap<String, Snap>> = None;
     for op in &scn.ops {
         if let Some(v) = op.strip_prefix("vanish:") {
             let _ = std::fs::remove_file(root.join(v));
             rewritten.remove(v);
             last_fmt_clean = None;
+            fmt_just_ran = None;
             continue;
         }
         let before = world::snapshot(&root);
@@ -469,6 +485,16 @@ pub fn run_case(scn: &Scn, scratch: &Path, fakebin: &Path, hash_seed: u64) -> Ca
                 // I1: read-only modes never modify anything
                 if let Some(d) = snap_diff(&before, &after) {
                     add(&mut out, "readonly-mode-modified-files", &format!("{op}"), format!("`incan fmt {} {}` changed the tree: {d}", op.split('+').map(|f| format!("--{f}")).collect::<Vec<_>>().join(" "), scn.path_arg));
+                }
+                if op == "check" {
+                    if let Some(errored) = fmt_just_ran.take() {
+                        // consistency with --check: fmt and --check decide "is this file formatted?" the same way
+                        for f in listed(&r.stdout, "Would reformat: ") {
+                            if !rewritten.contains(&f) && !errored.contains(&f) {
+                                add(&mut out, "check-flags-file-fmt-left-alone", "", format!("`incan fmt {}` exited {} without rewriting or complaining about {f}, yet the next `incan fmt --check` wants to reformat it", scn.path_arg, "0/1"));
+                            }
+                        }
+                    }
                 }
                 if op == "check" && !rewritten.is_empty() {
                     // I2: --check right after fmt rewrote a file
@@ -538,6 +564,11 @@ pub fn run_case(scn: &Scn, scratch: &Path, fakebin: &Path, hash_seed: u64) -> Ca
                     add(&mut out, "fault-exit-zero", &scn.faults.join("+"), format!("`incan fmt .` exits 0 although the tree contains {:?}", scn.faults));
                 }
                 rewritten = formatted.into_iter().collect();
+                let mut errored: BTreeSet<String> = BTreeSet::new();
+                for e in ["Error reading ", "Error formatting ", "Error writing "] {
+                    errored.extend(listed(&r.stderr, e));
+                }
+                fmt_just_ran = Some(errored);
                 last_fmt_clean = Some(after.clone());
             }
         }
